@@ -318,24 +318,50 @@ def native_coef2(obs, v, w):
 
 
 # ------------------------------------------------------------------ obligation runner
-def run_pool(obligations, worker, jobs=None, seed=0):
-    """run worker(ob) for each obligation in a fork pool; returns list of result dicts in input order"""
+def run_pool(obligations, worker, jobs=None, seed=0, deadline_s=None):
+    """run worker(ob) for each obligation in forked worker processes; returns list of result dicts in input order.
+    A crashed worker or an exhausted deadline yields {'error': ...} entries (reported as undecided), never a hang."""
     import multiprocessing as mp
+    from concurrent.futures import ProcessPoolExecutor, as_completed
+    from concurrent.futures.process import BrokenProcessPool
     get_world()          # dump MIR + load once in the parent so children inherit it
-    try:
-        replay_exe("dev")
-    except C.BuildError:
-        raise
+    replay_exe("dev")
     jobs = jobs or min(C.NCPU, 14)
     order = list(range(len(obligations)))
     if seed:
         random.Random(seed).shuffle(order)
-    ctx = mp.get_context("fork")
-    with ctx.Pool(jobs, maxtasksperchild=20) as pool:
-        res = pool.map(_Wrap(worker), [obligations[i] for i in order], chunksize=1)
+    tier, _ = C.tier_seed()
+    deadline_s = deadline_s or (1500 if tier == "quick" else 12000)
     out = [None] * len(obligations)
-    for i, r in zip(order, res):
-        out[i] = r
+    t0 = time.time()
+    ctx = mp.get_context("fork")
+    ex = ProcessPoolExecutor(max_workers=jobs, mp_context=ctx)
+    futs = {}
+    try:
+        w = _Wrap(worker)
+        for i in order:
+            futs[ex.submit(w, obligations[i])] = i
+        try:
+            for f in as_completed(futs, timeout=deadline_s):
+                i = futs[f]
+                try:
+                    out[i] = f.result()
+                except BrokenProcessPool:
+                    out[i] = {"ob": obligations[i].get("id"), "error": "worker process died"}
+                except Exception as e:
+                    out[i] = {"ob": obligations[i].get("id"), "error": f"{type(e).__name__}: {e}"}
+        except TimeoutError:
+            pass
+        for f, i in futs.items():
+            if out[i] is None:
+                out[i] = {"ob": obligations[i].get("id"), "error": f"not finished within the {deadline_s}s deadline of this tier (undecided)"}
+    finally:
+        for p in list(getattr(ex, "_processes", {}).values()):
+            try:
+                p.kill()
+            except Exception:
+                pass
+        ex.shutdown(wait=False, cancel_futures=True)
     return out
 
 
